@@ -106,6 +106,40 @@ func wholeInput(v ssa.Value, prm *ssa.Parameter, lex map[ssa.Value]bool) bool {
 	if v == ssa.Value(prm) {
 		return true
 	}
+	// the open-ended remainder p[k:] of a parameter whose first k bytes are taken by constant slices p[a:b] that tile [0,k)
+	if sl, ok := v.(*ssa.Slice); ok && sl.X == ssa.Value(prm) && sl.High == nil && sl.Max == nil && sl.Low != nil {
+		if k, isK := intConst(sl.Low); isK && k > 0 {
+			covered := make([]bool, k)
+			for _, ref := range *prm.Referrers() {
+				o, isSl := ref.(*ssa.Slice)
+				if !isSl || o == sl || o.X != ssa.Value(prm) || o.High == nil {
+					continue
+				}
+				lo := int64(0)
+				if o.Low != nil {
+					l, okL := intConst(o.Low)
+					if !okL {
+						continue
+					}
+					lo = l
+				}
+				hi, okH := intConst(o.High)
+				if !okH {
+					continue
+				}
+				for i := lo; i < hi && i < k; i++ {
+					covered[i] = true
+				}
+			}
+			all := true
+			for _, cv := range covered {
+				all = all && cv
+			}
+			if all {
+				return true
+			}
+		}
+	}
 	if cl, ok := v.(*ssa.Call); ok {
 		if sf := cl.Call.StaticCallee(); sf != nil && inUio(sf) && (sf.Name() == "ReadAll" || sf.Name() == "Data") && len(cl.Call.Args) > 0 {
 			a := cl.Call.Args[0]
